@@ -16,7 +16,7 @@ CHECKS = {
              note='Bounded-progress form of termination; run-out counts feasible for the deck; known finding inexact_chip_division (float/Decimal) is listed in known_findings.json.', ref='DESIGN.md §2 C07'),
  'C02': dict(technique='offline checker over the recorded operation log against an independent side-pot/eligibility/payout model (constraint oracle)',
              text='Held on the generated terminal histories: every ChipsPushing of thousands of showdowns (side pots, ties, hi-lo, multi-board, rake) satisfies the payout constraints derived from the statement by a model that never reads State.pots or payoffs.',
-             note='Hand strength from the engine evaluator on tabled cards (C04/C05 decide it); boards from get_board_cards (C14).', ref='DESIGN.md §2 C02'),
+             note='Hand strength from the independent evaluator of vflib/ref/handrank.py on the tabled cards (engine ranking cross-checked); number of boards from the log.', ref='DESIGN.md §2 C02'),
  'C03': dict(technique='online trace checker: reference betting round advanced by observed operations, compared at every decision + boundary probes of amounts',
              text='Held on the generated executions: at every betting decision the engine agrees with a ~150-line reference round on actor, round end, fold/call/bring-in legality and amounts, raise admissibility and the [min,max] interval, with amounts probed below/at/between/above the bounds.',
              note='First actor of a round taken from the engine (C13); documented conventions for straddles, short opening all-ins and the cap.', ref='DESIGN.md §2 C03'),
@@ -37,7 +37,7 @@ CHECKS = {
              note='Default dealee in draw rounds: first player still owed cards.', ref='DESIGN.md §2 C10'),
  'C12': dict(technique='twin run (automatic show/muck/kill vs everybody tables) + reference floor shares with every hand tabled + direct check that no winning hand is mucked or killed; read-only Observer queries interleaved with run A',
              text='Held on the generated showdowns (side pots, ties, hi-lo, multi-board, run-outs): payoffs equal the everybody-tables twin, every winner was shown in full, tournament show constraints probed at every showdown decision.',
-             note='Hand strength from the engine evaluator (C04/C05); floor-share oracle only without rake.', ref='DESIGN.md §2 C12'),
+             note='Hand strength from the independent evaluator; floor-share oracle only without rake.', ref='DESIGN.md §2 C12'),
  'C14': dict(technique='trace + terminal-structure monitor for run-out selection, consensus rule and board structure',
              text='Held on the generated all-in hands: who is offered the selection and when, the agreed count, b*r complete boards sharing exactly the pre-all-in cards, operation counts after the all-in, even split of pots over boards.',
              note='Run-out counts limited to what the deck can serve.', ref='DESIGN.md §2 C14'),
